@@ -381,6 +381,10 @@ static int v_read(const struct cat_variable *var)
 }
 
 static struct cat_io_interface io_if = { io_write, io_read };
+/* an application sets the descriptor's flags from whatever truthy value it has at hand (`cfg & 0x04`): the flags are `bool`, so any
+   non-zero value means true */
+static volatile int truthy = 4;
+#define FLAGVAL(cond) ((cond) ? truthy : 0)
 static struct cat_mutex_interface mtx_if = { mtx_lock, mtx_unlock };
 /* `mutex 2`: the interface is handed to cat_init before its functions are known and completed right after (the library keeps the pointer) */
 static struct cat_mutex_interface mtx_late;
@@ -416,10 +420,10 @@ static void fill_cmd(struct cat_command *c, struct cdesc *d)
         c->read = (d->hmask & 2) ? h_read : NULL;
         c->run = (d->hmask & 4) ? h_run : NULL;
         c->test = (d->hmask & 8) ? h_test : NULL;
-        c->need_all_vars = (d->flags & 1) != 0;
-        c->only_test = (d->flags & 2) != 0;
-        c->disable = (d->flags & 4) != 0;
-        c->implicit_write = (d->flags & 8) != 0;
+        c->need_all_vars = FLAGVAL((d->flags & 1) != 0);
+        c->only_test = FLAGVAL((d->flags & 2) != 0);
+        c->disable = FLAGVAL((d->flags & 4) != 0);
+        c->implicit_write = FLAGVAL((d->flags & 8) != 0);
         if (d->varsnull) {
                 c->var = NULL; c->var_num = (size_t)d->nvars;
                 d->vars = NULL;
@@ -454,7 +458,7 @@ static void do_init(void)
                 grps[g].grp->name = grps[g].name;
                 grps[g].grp->cmd = grps[g].arr;
                 grps[g].grp->cmd_num = (size_t)grps[g].ncmds;
-                grps[g].grp->disable = grps[g].dis != 0;
+                grps[g].grp->disable = FLAGVAL(grps[g].dis != 0);
         }
         for (i = 0; i < ncmds; i++) if (cmds[i].group < 0) fill_cmd(malloc(sizeof(struct cat_command)), &cmds[i]);
         grp_ptrs = malloc(sizeof(*grp_ptrs) * (size_t)(ngrps ? ngrps : 1));
@@ -666,10 +670,10 @@ int main(void)
                         free_answers();
                         if (tok[1][0] == 'c') {
                                 struct cat_command *c = cmds[atoi(tok[2])].ptr;
-                                if (strcmp(tok[3], "dis") == 0) c->disable = atoi(tok[4]) != 0;
-                                else c->only_test = atoi(tok[4]) != 0;
+                                if (strcmp(tok[3], "dis") == 0) c->disable = FLAGVAL(atoi(tok[4]) != 0);
+                                else c->only_test = FLAGVAL(atoi(tok[4]) != 0);
                         } else {
-                                grps[atoi(tok[2])].grp->disable = atoi(tok[3]) != 0;
+                                grps[atoi(tok[2])].grp->disable = FLAGVAL(atoi(tok[3]) != 0);
                         }
                         emit(opname, 0); continue;
                 }
